@@ -99,11 +99,20 @@ def translate_expression(expr, env: Env) -> TExp:  # noqa: C901
                 else:
                     raise exceptions.OutOfBoundException(len(get_args(inner_type)), i)
 
-        if hasattr(inner_type, "BIT_SIZE"):
-            return (
-                inner_type,
-                [Symbol(f"{sn}.{i}") for i in range(inner_type.BIT_SIZE)],
-            )
+        def bits_of(t, base):
+            """The bit symbols of a (possibly tuple typed) element, as a flat list"""
+            if hasattr(t, "BIT_SIZE"):
+                return [Symbol(f"{base}.{i}") for i in range(t.BIT_SIZE)]
+            elif len(get_args(t)) > 0:
+                return [
+                    b
+                    for i, a in enumerate(get_args(t))
+                    for b in bits_of(a, f"{base}.{i}")
+                ]
+            return [Symbol(base)]
+
+        if hasattr(inner_type, "BIT_SIZE") or len(get_args(inner_type)) > 0:
+            return (inner_type, bits_of(inner_type, sn))
         else:
             return (inner_type, Symbol(sn))
 
